@@ -1,6 +1,7 @@
 import TakVerif.Proofs.TextTotal
 import TakVerif.Impl.PTNReal
 import TakVerif.Proofs.PTNTotal
+import TakVerif.Proofs.PTNIter
 import TakVerif.Proofs.Groups
 
 /-! Linking the PTN-file model (`Impl/PTN.lean`, parameters `Env`) to the byte-level models of
@@ -87,5 +88,99 @@ theorem realParseTPS_graceful (basis : Array W) (b : Bytes) : Graceful (Tak.TPS.
   | illegal w => exact ⟨w, rfl⟩
   | panic s => exact absurd he (Tak.TPS.parseTPS_noPanic basis b s)
   | hang s => exact absurd he (Tak.TPS.parseTPS_noHang basis b Roads.analyze_ne_none s)
+
+end PTN
+
+namespace PTN
+open Tak
+
+theorem parseDir_ne_zero (b : UInt8) (ty : Nat) (h : Tak.PTN.parseDir b = .ok ty) : ty ≠ 0 := by
+  unfold Tak.PTN.parseDir at h
+  repeat' split at h
+  all_goals first
+    | (injection h with h; subst h; decide)
+    | cases h
+
+theorem parseDrops_type (m : Move) (ty stack : Nat) (rest : Go.Bytes) (m' : Move)
+    (h : Tak.PTN.parseDrops m ty stack rest = .ok m') : m'.type = ty := by
+  unfold Tak.PTN.parseDrops at h
+  simp only [] at h
+  split at h
+  · cases h
+  · split at h
+    · cases h
+    · split at h
+      · cases h
+      · injection h with h; subst h; rfl
+
+theorem parseHead_type (b0 : UInt8) : (Tak.PTN.parseHead b0).1 ≠ 0 ∨ (Tak.PTN.parseHead b0).2.1 ≠ 0 := by
+  unfold Tak.PTN.parseHead
+  split
+  · left; decide
+  · split
+    · left; decide
+    · split
+      · left; decide
+      · split
+        · rename_i h
+          right
+          simp only [Tak.PTN.is18, Bool.and_eq_true, decide_eq_true_eq] at h
+          show b0.toNat - 48 ≠ 0
+          omega
+        · left; decide
+
+/-- `ParseMove` never returns the zero move type: a placement has its kind, a slide its direction -/
+theorem realParseMove_type (b : Bytes) (m : Move) (h : Tak.PTN.parseMove b = .ok m) : m.type ≠ 0 := by
+  unfold Tak.PTN.parseMove at h
+  split at h
+  · cases h
+  split at h
+  · cases h
+  rename_i b0 _
+  have hh := parseHead_type b0
+  split at h
+  rename_i ty stack i hph
+  rw [hph] at hh
+  dsimp only at hh
+  split at h
+  · cases h
+  split at h
+  · cases h
+  split at h
+  · cases h
+  split at h
+  · cases h
+  split at h
+  · cases h
+  -- the placement return
+  have hplace : ∀ m0 : Move, m0.type = ty →
+      (if stack ≠ 0 then (Except.error (Err.illegal "illegal move") : R Move) else .ok m0) = .ok m → m.type ≠ 0 := by
+    intro m0 hm0 hp
+    split at hp
+    · cases hp
+    · rename_i hs
+      injection hp with hp
+      subst hp
+      rw [hm0]
+      rcases hh with hh | hh
+      · exact hh
+      · exact absurd hh hs
+  dsimp only at h
+  split at h
+  · exact hplace _ rfl h
+  split at h
+  · cases h
+  split at h
+  · exact hplace _ rfl h
+  split at h
+  · cases h
+  · rename_i ty' hdir
+    rw [parseDrops_type _ _ _ _ _ h]
+    exact parseDir_ne_zero _ _ hdir
+
+/-- every file the linked `ParsePTN` returns is inside the domain of the iterator theorems -/
+theorem parsePTN_noZero_linked (basis : Array W) (input : Bytes) (f : File)
+    (h : parsePTN (realEnv basis) input = .ok f) : NoZero f.ops :=
+  parsePTN_noZero (realEnv basis) realParseMove_type input f h
 
 end PTN
